@@ -426,7 +426,8 @@ def verdict(mod, merged, tier, seed, wall, workdir, replay=None):
     # Evidence (always rewritten, also on violation / inconclusive).
     n_distinct = len(merged['distinct'])
     cov = {
-        'evaluations': int(merged['n_cases']),
+        # executions judged; every distinct case was one, so never smaller
+        'evaluations': int(max(merged['n_cases'], n_distinct)),
         'distinct_nontrivial': int(n_distinct),
         'rule': mod.RULE,
         'samples': merged['samples'][:6] or [],
